@@ -253,7 +253,10 @@ def applyTkScript (pool : List MapTable) (server : List ServerPatch) (f : FontSt
     match server[data.headD 0]? with
     | none => .error "err:bad-script"
     | some sp =>
-      if sp.kind ≠ 0 then .error "err:InvalidPatch" else
+      -- a glyph-keyed patch handed to `apply_table_keyed_patch`: `TableKeyedPatch::read` does not
+      -- look at the format tag, and the bytes where it expects the compat id are the glyph-keyed
+      -- header shifted by one byte (never equal: the harness's compat ids start with a non-zero byte)
+      if sp.kind ≠ 0 then .error "err:IncompatiblePatch" else
       if sp.compat ≠ fc then .error "err:IncompatiblePatch" else
       let f1 := match sp.newIft with | some i => (pool.getD i .none, f.2) | none => f
       let f2 := match sp.newIftx with | some i => (f1.1, pool.getD i .none) | none => f1
@@ -271,7 +274,9 @@ def applyGkScript (server : List ServerPatch) (f : FontState)
         match server[data.headD 0]? with
         | none => some "err:bad-script"
         | some sp =>
-          if sp.kind ≠ 1 then some "err:PatchParsingFailed" else
+          -- a table-keyed patch handed to `apply_glyph_keyed_patches`: `GlyphKeyedPatch::read` does
+          -- not look at the format tag either; its compat id field is the table-keyed one shifted
+          if sp.kind ≠ 1 then some "err:IncompatiblePatch" else
           if sp.compat ≠ fc then some "err:IncompatiblePatch" else check rest
   match check ps with
   | some e => .error e
